@@ -25,7 +25,9 @@ func init() {
 	}}
 }
 
-var c13FailPool = []string{"% Invalid", "error:", "ERR", "unknown command", "Ambiguous", "denied", "E", "% "}
+// failure strings; some have significant leading / trailing blanks (the scan is a plain substring
+// test: " denied " does not occur in "access denied\n")
+var c13FailPool = []string{"% Invalid", "error:", "ERR", "unknown command", "Ambiguous", "denied", "E", "% ", " denied ", "Error: ", " % Incomplete", "\t"}
 
 type c13Case struct {
 	Variant string   `json:"variant"`
@@ -87,7 +89,12 @@ func genC13(r *sim.Rng) *c13Case {
 				s = r.Pick(eff)
 			}
 			at := r.Intn(len(sb))
-			sb[at] = strings.TrimRight(sb[at]+" "+s+" tail", " ")
+			if core := strings.TrimSpace(s); core != s && core != "" && r.Chance(1, 2) {
+				// only the core of a failure string with edge blanks, at the end of a line: NOT an occurrence
+				sb[at] = sb[at] + "," + core
+			} else {
+				sb[at] = strings.TrimRight(sb[at]+" "+s+" tail", " ")
+			}
 		}
 		c.Outs = append(c.Outs, strings.Join(sb, "\n"))
 	}
